@@ -33,7 +33,7 @@ ASSUMPTIONS = [
   "only when the reference itself changes under a 1e-3 perturbation",
   "contact sensors with reduce=none are compared as multisets of slots (contact order is not part of the property)",
 ]
-BUDGET = {"quick": dict(examples=480, seconds=150, workers=16), "thorough": dict(examples=40000, seconds=1500, workers=16)}
+BUDGET = {"quick": dict(examples=480, seconds=420, workers=16), "thorough": dict(examples=40000, seconds=1500, workers=16)}
 
 # classes with a reported defect that are excluded by construction (counted in rec.excluded); see the C07 report
 # (signature suffixes as returned by _klass; the full signature is "sensor:<TYPE><suffix>")
